@@ -25,6 +25,8 @@ RO_CONFIGS = [
     dict(kind="fs", separate=True, budget=None, source="config"),
     dict(kind="fs", separate=False, budget=800, source="config"),
     dict(kind="fs", separate=True, budget=100000, source="arg"),
+    dict(kind="fs", separate=False, budget=None, source="arg-over-config"),
+    dict(kind="fs", separate=True, budget=800, source="arg-over-config"),
 ]
 
 
@@ -37,6 +39,12 @@ def open_ro(cfg, dirs):
         kw.update(path=data, read_only=True)
         if cfg.get("separate"):
             kw["metadata_path"] = meta
+    elif cfg["source"] == "arg-over-config":
+        # the configuration object says "readonly": False (the dump of a writable backend does); the argument overrides it
+        conf.update(path=data, readonly=False)
+        kw.update(read_only=True)
+        if cfg.get("separate"):
+            conf["metadata_path"] = meta
     else:
         conf.update(path=data, readonly=True)
         if cfg.get("separate"):
@@ -204,7 +212,7 @@ def function_level(chk, root):
             os.utime(stale, (1.0e9, 1.0e9))
             age_tree(data, 1.1e9)
             os.utime(stale, (1.0e9, 1.0e9))
-            for source in ("arg", "config", "cluster-config", "replaced-in-repository"):
+            for source in ("arg", "config", "arg-over-dump-of-writable", "cluster-config", "replaced-in-repository"):
                 before_open = fsaudit.snapshot([data])
                 kw = dict(memory_cache_mb=budget) if budget else {}
                 if source == "cluster-config":
@@ -228,6 +236,11 @@ def function_level(chk, root):
                     assert mfns.ga(1) == 1 and env.get_cluster("vc") is not None
                     env.repos[0].clusters["vc"] = FunctionCluster(name="vc", storage=FilesystemStorageBackend(path=data, read_only=True, **kw))
                     age_tree(data, 1.1e9)
+                elif source == "arg-over-dump-of-writable":
+                    # the configuration is the dump of a writable backend on the same path (it says "readonly": False); the explicit
+                    # argument declares the store read-only
+                    st = FilesystemStorageBackend(config=FilesystemStorageBackend(path=data, **kw).to_dict(), read_only=True)
+                    m.Environment.set(env_with(st, base=base))
                 else:
                     st = (FilesystemStorageBackend(path=data, read_only=True, **kw) if source == "arg"
                           else FilesystemStorageBackend(config={"path": data, "readonly": True}, **kw))
@@ -238,7 +251,13 @@ def function_level(chk, root):
                                       budget=budget, source=source))
                 mfns.REC.calls.clear()
                 with fsaudit.Recorder([data]) as rec:
-                    outs = [mfns.ga(1), mfns.gb(2), mfns.ga(3), mfns.ga(3), mfns.ga.call_batch([{"x": 1}, {"x": 4}])]
+                    outs = []
+                    for thunk_ in (lambda: mfns.ga(1), lambda: mfns.gb(2), lambda: mfns.ga(3), lambda: mfns.ga(3),
+                                   lambda: mfns.ga.call_batch([{"x": 1}, {"x": 4}])):
+                        try:
+                            outs.append(thunk_())
+                        except Exception as e:
+                            outs.append("raised " + type(e).__name__)
                     try:
                         mfns.ga.forget()
                         outs.append("forget-accepted")
@@ -256,8 +275,13 @@ def function_level(chk, root):
                         except ValueError:
                             pass
                     # a result that is staged on disk while its body runs; the caller keeps it while the store is compared
-                    staged = mfns.gp(5)
-                    staged_ok = sorted(staged.list_keys()) == ["a", "b"] and staged.get("a") == [5, "a"]
+                    try:
+                        staged = mfns.gp(5)
+                        staged_ok = sorted(staged.list_keys()) == ["a", "b"] and staged.get("a") == [5, "a"]
+                    except Exception as e:          # a call that is not memoized is computed, memoization is skipped: it does not fail
+                        staged, staged_ok = None, False
+                        fails.append(dict(clause="read-only-answers", level="function", budget=budget, source=source,
+                                          outs="a call returning an on-disk partition raised %r" % (e,)))
                     during = fsaudit.snapshot([data])
                 if not staged_ok or during != before:
                     fails.append(dict(clause="no-mutation-under-storage-paths", level="function", when="while a computed on-disk partition is alive",
